@@ -168,7 +168,7 @@ class Prop:
         return True
 
     def describe(self, case, out):
-        return {"case": hexf(case), "out": hexf(out)}
+        return {"case": hexf(pub(case)), "out": hexf(out)}
 
     def classify(self, case, out):
         """coarse description for the input-distribution histogram"""
@@ -409,6 +409,11 @@ def safe_impl(prop, case):
                 "tb": traceback.format_exc()[-800:]}
 
 
+def pub(case):
+    """case without harness-private (underscore) keys"""
+    return {k: v for k, v in case.items() if not str(k).startswith("_")} if isinstance(case, dict) else case
+
+
 def case_hash(case):
     return hashlib.sha1(json.dumps(hexf(case), sort_keys=True, default=str).encode()).hexdigest()
 
@@ -536,7 +541,7 @@ def run_check(prop, tier="quick", seed=0, replay=None, selftest=False, ncases=No
             if key in seen_classes:
                 continue
             seen_classes.add(key)
-            report(vclass, sv["what"], {"case": hexf(c), "out": hexf(o), "detail": hexf(sv),
+            report(vclass, sv["what"], {"case": hexf(pub(c)), "out": hexf(o), "detail": hexf(sv),
                                         "flagged_by": ("verdict %s" % prop.verdict) if i in failing else "spec predicate only (Coq verdict passed!)",
                                         "entry": prop.entry(c)}, True)
         else:
@@ -547,7 +552,7 @@ def run_check(prop, tier="quick", seed=0, replay=None, selftest=False, ncases=No
             seen_classes.add(key)
             report(vclass, "model/implementation correspondence `%s` fails on case %d but the property predicate "
                    "holds on it" % (prop.verdict, i),
-                   {"case": hexf(c), "out": hexf(o), "correspondence": prop.verdict, "entry": prop.entry(c)}, False)
+                   {"case": hexf(pub(c)), "out": hexf(o), "correspondence": prop.verdict, "entry": prop.entry(c)}, False)
     for v in extra:
         report(v.get("class", "extra"), v["what"], v.get("payload", {}), v.get("found", True))
     if not pc["ok"]:
